@@ -73,12 +73,31 @@ def make_harness(bases):
         bno = e.choice(len(bases), "base")
         twins = e.flag("content_identical_twins")
         recipe = _twinify(bases[bno]) if twins else bases[bno]
-        root = build(recipe)
+        # prehistory: caches keyed by node hash / equality must not leak between trees.  An
+        # identical tree is built, indexed and queried, then detached (its ids are taken over by
+        # the tree under test) or replaced by an equal root.
+        pre = e.pick(["none", "identical-tree-indexed-then-detached", "root-replaced-by-equal-root"], "prehistory")
+        if pre == "none":
+            root = build(recipe)
+        else:
+            from pyoak.match.xpath import ASTXpath
+
+            root0 = build(recipe)
+            t0 = Tree(root0)
+            t0.get_depth(root0)
+            root0.to_tree()
+            ASTXpath("//VLeaf").match(root0, root0)
+            if pre == "identical-tree-indexed-then-detached":
+                root0.detach()
+                del t0
+                root = build(recipe)
+            else:
+                root = root0.replace()
         tree = Tree(root)
         paths = positions_of(recipe)
         nodes = [node_at(root, p) for p in paths]
         parent_of = {tuple(p): tuple(p[:-1]) for p in paths if p}
-        scenario: dict[str, Any] = {"tree": describe(recipe), "twins": twins}
+        scenario: dict[str, Any] = {"tree": describe(recipe), "twins": twins, "prehistory": pre}
         mode = e.pick(["unary", "binary", "foreign"], "query_kind")
         scenario["query_kind"] = mode
 
@@ -168,7 +187,7 @@ def make_harness(bases):
                     outcome = type(ex).__name__
                 if outcome != "KeyError":
                     fail("query-about-foreign-node-does-not-raise-KeyError", method=name, outcome=outcome, member=str(paths[k]))
-        e.distinct((bno, twins, mode))
+        e.distinct((bno, twins, mode, pre))
         return scenario
 
     return harness
